@@ -56,6 +56,13 @@ const FEATURE: &[(&str, &str, &str)] = &[
     ("ep-evades-check", "8/8/8/2k5/3Pp3/8/8/4K3 b - d3 0 1", ""),
     ("ep-after-play", "4k3/3p1p2/8/4P3/4p3/8/3P1P2/4K3 w - - 0 1", ""),
     ("double-push-no-capturer", "4k3/p7/8/8/8/8/P7/4K3 w - - 0 1", ""),
+    // doubled pawns on the file of the double push: the pawn beside an enemy pawn is not always
+    // the one that has just advanced two squares
+    ("ep-doubled-pawns-4", "4k3/3p4/8/8/3pP3/8/8/4K3 b - - 0 1", ""),
+    ("ep-doubled-pawns-3", "4k3/3p4/8/8/8/3pP3/8/4K3 b - - 0 1", ""),
+    ("ep-doubled-pawns-both", "4k3/2p1p3/8/8/2pPp3/2pPp3/8/4K3 b - - 0 1", ""),
+    // a queen (and no rook or bishop) pinning pieces
+    ("queen-pins", "4k3/8/8/8/q2N1K2/8/2P5/3q4 w - - 0 1", ""),
     // castling: squares next to / on the path attacked
     ("castle-b1-attacked", "1r2k3/8/8/8/8/8/8/R3K2R w KQ - 0 1", ""),
     ("castle-d1-attacked", "3rk3/8/8/8/8/8/8/R3K2R w KQ - 0 1", ""),
